@@ -265,7 +265,9 @@ static bool nparty_once(std::vector<std::pair<std::string, std::string> > &pendi
 static void nparty(const Grp &G, size_t n, size_t t, const std::vector<bool> &faulty, uint64_t seed) {
 	n_nparty++;
 	std::vector<std::vector<std::pair<std::string, std::string> > > all;
-	for (int attempt = 0; attempt < 3; attempt++) { std::vector<std::pair<std::string, std::string> > pend; if (nparty_once(pend, G, n, t, faulty, seed + 7777 * attempt)) return; all.push_back(pend); }
+	for (int attempt = 0; attempt < 3; attempt++) { std::vector<std::pair<std::string, std::string> > pend; if (nparty_once(pend, G, n, t, faulty, seed + 7777 * attempt)) return; all.push_back(pend);
+		bool wall = false; for (auto &g : pend) if (g.first == "nparty-timeout") wall = true;
+		if (wall && attempt >= 1) { fprintf(stderr, "c17: nparty n=%zu: wall-clock limit hit twice, giving up (inconclusive)\n", n); return; } }
 	// a wrong coin value (not a failure to complete, not a disagreement) that repeats in every attempt is reported even though
 	// time-outs expired in all of them
 	for (auto &f : all.back()) {
